@@ -15,6 +15,7 @@ CLAIMED = {
  "C03": ("model_checking", HIST + " Clauses: tag resolution equals the model map after every step, tags/list is exactly the sorted tag set, n/last pages are exact, open classes of n give a valid listing.", "6 C03"),
  "C04": ("model_checking", HIST + " Clauses: a manifest push is acknowledged iff ManAccept holds; after a refusal blobs, manifests, tags, tag list and every referrers list are what the model says (unchanged).", "6 C04"),
  "C07": ("model_checking", HIST + " Clauses: for every catalogue subject, unfiltered and per artifactType, cold and cache-warm, the listed digests equal the derived Referrers set, each once, with exact descriptor fields; filter announced.", "6 C07"),
+ "C18": ("model_checking", "spec/IndexImpl.tla transcribes AddDesc/RmDesc/AddChildren/GetDesc/GetByAnnotation statement by statement; TLC checks all C18 invariants and action properties on the closure (every operation sequence of any length) of small universes; behaviours of the model (tlc -simulate of spec/MCIndex.tla, with the predicted list after each step) and Go-generated random sequences are applied to the real types.Index; the projection through the public methods after every step, including an earlier Copy, is validated by TLC against the abstract index model spec/TraceIndex.tla (verdict); list differences to IndexImpl are reported as DRIFT.", "6 C18"),
  "C08": ("model_checking", HIST + " Clauses: PATCH/PUT accepted iff offsets and state token are in order, status query exact, completion stores the concatenation, sessions exist exactly while the model says so (hook, no LRU refresh), per repository.", "6 C08"),
 }
 
